@@ -311,7 +311,7 @@ _gate = _MemGate(float(os.environ.get("VERIF_MEM_GB", "52")))
 
 
 def _gated(j):
-    gb = j.get("mem_gb", 12) * 0.75  # caps are rarely reached; budget three quarters of each
+    gb = j.get("mem_gb", 12) * 0.5  # caps are rarely reached (typical 1-5 GB): budget half of each
     _gate.acquire(gb)
     try:
         return run_job(**j)
